@@ -8,7 +8,7 @@ import (
 	"os"
 	"strconv"
 
-	_ "verifharness/checks"
+	"verifharness/checks"
 	"verifharness/internal/core"
 )
 
@@ -19,6 +19,16 @@ func main() {
 	}
 	mode := os.Args[1]
 	switch mode {
+	case "__crashdump":
+		fs := flag.NewFlagSet(mode, flag.ExitOnError)
+		seed := fs.Int64("seed", 1, "")
+		tier := fs.String("tier", "quick", "")
+		idx := fs.Int("idx", 0, "")
+		k := fs.Int("k", 0, "")
+		tear := fs.Int("tear", 0, "")
+		fs.Parse(os.Args[3:])
+		checks.CrashDump(os.Args[2], *seed, *tier, *idx, *k, *tear)
+		return
 	case "__worker", "__witness":
 		id := os.Args[2]
 		fs := flag.NewFlagSet(mode, flag.ExitOnError)
